@@ -22,6 +22,9 @@ import (
 	"github.com/spikeekips/mitum/base"
 	"github.com/spikeekips/mitum/isaac"
 	isaacblock "github.com/spikeekips/mitum/isaac/block"
+	"github.com/spikeekips/mitum/util"
+	"github.com/spikeekips/mitum/util/fixedtree"
+	"github.com/spikeekips/mitum/util/valuehash"
 	"verifharness/c13/blkrig"
 	"verifharness/vlib"
 )
@@ -37,9 +40,13 @@ type worldFile struct {
 	// NonGenesisZero: a valid proof of suffrage height 0 carried by a block
 	// above the genesis height
 	NonGenesisZero []byte
+	// Late: another chain whose suffrage heights 1.. sit in blocks far above
+	// every block of the main chain (suffrage height 0 at genesis)
+	Late [][]byte
 }
 
 type world struct {
+	late []base.SuffrageProof
 	networkID base.NetworkID
 	main      []base.SuffrageProof
 	foreign   []base.SuffrageProof
@@ -84,6 +91,34 @@ func buildWorld(r *vlib.Run, n int) (worldFile, error) {
 
 	if wf.Foreign, err = chain("foreign", n, true, 2); err != nil {
 		return wf, err
+	}
+
+	{
+		rng := r.Rand(18, 9000, 4)
+		c := rig.NewChain(filepath.Join(r.WorkDir(), "chain-late"))
+
+		for i := 0; i < 8; i++ {
+			if i == 1 {
+				c.Jump(int64(n) + 10)
+			}
+
+			if _, err := c.Add(blkrig.Spec{NOps: 1, NStatesPerOp: 1, Suffrage: true, NNodes: 1 + rng.Intn(2)}, rng); err != nil {
+				c.Close()
+
+				return wf, err
+			}
+		}
+
+		c.Close()
+
+		for i := range c.Proofs {
+			b, err := rig.Enc.Marshal(c.Proofs[i])
+			if err != nil {
+				return wf, err
+			}
+
+			wf.Late = append(wf.Late, b)
+		}
 	}
 
 	switch g, err := chain("ngz", 2, false, 3); {
@@ -140,6 +175,15 @@ func loadWorld(wf worldFile) (*world, error) {
 		}
 
 		w.foreign = append(w.foreign, p)
+	}
+
+	for i := range wf.Late {
+		p, err := dec(wf.Late[i])
+		if err != nil {
+			return nil, err
+		}
+
+		w.late = append(w.late, p)
 	}
 
 	p, err := dec(wf.NonGenesisZero)
@@ -207,6 +251,7 @@ var kinds = []string{
 	"honest", "honest", "honest", "shuffled", "dup", "omit", "below-local", "above-last", "foreign-one", "foreign-all",
 	"last-foreign", "last-older", "local-ahead", "fetch-error", "not-updated", "nongenesis-zero",
 	"splice", "splice", "splice", "scheduled-honest",
+	"last-not-newer", "last-not-newer", "forged-unproven", "forged-unproven", "forged-wrong-previous",
 }
 
 var orders = []string{"reverse", "reverse", "forward", "random", "simultaneous"}
@@ -303,6 +348,40 @@ func genCase(id int, rng *rand.Rand, n int) bcase {
 		}
 	case "nongenesis-zero":
 		c.Local = -1
+	case "last-not-newer":
+		// the remote's last proof is valid by itself and of a newer block than
+		// the local state, but its suffrage height is at or below the local
+		// one: Answer = suffrage height of the served last proof of the late
+		// chain (1..7), Local >= Answer
+		c.Answer = 1 + rng.Intn(7)
+		c.Local = c.Answer + []int{0, 0, 1, 1 + rng.Intn(5)}[rng.Intn(4)]
+
+		if c.Local >= n {
+			c.Local = n - 1
+		}
+
+		c.Last = c.Answer
+	case "forged-unproven", "forged-wrong-previous":
+		// Targets[0]: the height whose proof is forged; every later height is
+		// served from a forged chain linked to it
+		if c.Kind == "forged-unproven" && rng.Intn(2) == 0 {
+			c.Local = -1
+			c.Last = rng.Intn(6)
+			c.Targets = []int{0}
+
+			break
+		}
+
+		if c.Last-c.Local > 10 {
+			c.Last = c.Local + 1 + rng.Intn(10)
+		}
+
+		need = c.Last - c.Local
+		c.Targets = []int{c.Local + 1 + rng.Intn(need)}
+
+		if c.Kind == "forged-wrong-previous" && c.Targets[0] == 0 {
+			c.Kind = "forged-unproven"
+		}
 	case "splice", "scheduled-honest":
 		// a short range so that the scheduled answers stay cheap
 		if c.Last < 1 {
@@ -360,6 +439,17 @@ func directed(n int) []bcase {
 		{Kind: "splice", Local: 3, Last: 9, Limit: 10, Splice: 4, Order: "random", GapMs: 1, SlowMs: 10},
 		{Kind: "splice", Local: -1, Last: 5, Limit: 3, Splice: 2, Order: "reverse", GapMs: 2, SlowMs: 10},
 		{Kind: "splice", Local: 10, Last: 16, Limit: 6, Splice: 13, Order: "simultaneous", GapMs: 1, SlowMs: 10},
+		{Kind: "last-not-newer", Local: 3, Last: 2, Answer: 2, Limit: 3},
+		{Kind: "last-not-newer", Local: 3, Last: 3, Answer: 3, Limit: 3},
+		{Kind: "last-not-newer", Local: 6, Last: 1, Answer: 1, Limit: 10},
+		{Kind: "forged-unproven", Local: -1, Last: 0, Limit: 3, Targets: []int{0}},
+		{Kind: "forged-unproven", Local: -1, Last: 4, Limit: 3, Targets: []int{0}},
+		{Kind: "forged-unproven", Local: -1, Last: 4, Limit: 10, Targets: []int{0}},
+		{Kind: "forged-unproven", Local: -1, Last: 5, Limit: 10, Targets: []int{3}},
+		{Kind: "forged-unproven", Local: 2, Last: 6, Limit: 2, Targets: []int{3}},
+		{Kind: "forged-unproven", Local: 2, Last: 6, Limit: 10, Targets: []int{5}},
+		{Kind: "forged-wrong-previous", Local: -1, Last: 5, Limit: 10, Targets: []int{2}},
+		{Kind: "forged-wrong-previous", Local: 2, Last: 6, Limit: 2, Targets: []int{3}},
 		{Kind: "scheduled-honest", Local: -1, Last: 7, Limit: 8, Order: "reverse", GapMs: 2, SlowMs: 10},
 		{Kind: "scheduled-honest", Local: 2, Last: 9, Limit: 3, Order: "random", GapMs: 1, SlowMs: 6},
 	}
@@ -381,6 +471,47 @@ func runCase(w *world, c bcase) (res cresult) {
 	lastproof := w.main[c.Last]
 	if c.Kind == "last-foreign" || (c.Splice > 0 && c.Splice <= c.Last) {
 		lastproof = w.foreign[c.Last]
+	}
+
+	if c.Kind == "last-not-newer" {
+		lastproof = w.late[c.Answer]
+	}
+
+	// forged chain: the proof at Targets[0] breaks exactly one binding, the
+	// later ones follow it (forged states under the real block maps, paths from
+	// their own consistent trees)
+	forged := map[int]base.SuffrageProof{}
+
+	if c.Kind == "forged-unproven" || c.Kind == "forged-wrong-previous" {
+		t := c.Targets[0]
+
+		var prevhash util.Hash
+		if t > 0 {
+			prevhash = w.main[t-1].State().Hash()
+		}
+
+		for i := t; i <= c.Last; i++ {
+			real := w.main[i]
+			bh := real.Map().Manifest().Height()
+
+			ph := prevhash
+			if i == t && c.Kind == "forged-wrong-previous" {
+				ph = valuehash.RandomSHA256()
+			}
+
+			st := base.NewBaseState(bh, isaac.SuffrageStateKey,
+				blkrig.SuffrageValue(base.Height(int64(i)), bh, []base.Node{base.RandomNode()}), ph, []util.Hash{valuehash.RandomSHA256()})
+
+			path := real.Proof() // the path of the real state: does not contain the forged one
+			if !(i == t && c.Kind == "forged-unproven") {
+				path = ownTreePath(st.Hash().String(), 3+i%4, i%3)
+			}
+
+			forged[i] = isaacblock.NewSuffrageProof(real.Map(), st, path)
+			prevhash = st.Hash()
+		}
+
+		lastproof = forged[c.Last]
 	}
 
 	// schedule: rank of every requested height in the order of arrival
@@ -465,6 +596,8 @@ func runCase(w *world, c bcase) (res cresult) {
 				return w.ngz, true, nil
 			case c.Kind == "foreign-all":
 				return w.foreign[i], true, nil
+			case forged[i] != nil:
+				return forged[i], true, nil
 			case c.Splice > 0 && i >= c.Splice:
 				return scheduled(i, w.foreign[i]), true, nil
 			case c.Order != "":
@@ -593,7 +726,9 @@ func runCase(w *world, c bcase) (res cresult) {
 				}
 			}()
 
-			perr = q[i].Prove(prev)
+			if perr = q[i].IsValid(w.networkID); perr == nil {
+				perr = q[i].Prove(prev)
+			}
 		}()
 
 		if perr != nil {
@@ -619,6 +754,38 @@ func runCase(w *world, c bcase) (res cresult) {
 	}
 
 	return res
+}
+
+// ownTreePath returns the proof material of key in a states tree of n nodes
+// built around it (internally consistent, unrelated to any block).
+func ownTreePath(key string, n, pos int) fixedtree.Proof {
+	wr, err := fixedtree.NewWriter(base.StateFixedtreeHint, uint64(n))
+	if err != nil {
+		panic(err)
+	}
+
+	for i := 0; i < n; i++ {
+		k := valuehash.RandomSHA256().String()
+		if i == pos%n {
+			k = key
+		}
+
+		if err := wr.Add(uint64(i), fixedtree.NewBaseNode(k)); err != nil {
+			panic(err)
+		}
+	}
+
+	tr, err := wr.Tree()
+	if err != nil {
+		panic(err)
+	}
+
+	p, err := tr.Proof(key)
+	if err != nil {
+		panic(err)
+	}
+
+	return p
 }
 
 func child(dir string, start int) error {
@@ -694,9 +861,11 @@ func TestC18(t *testing.T) {
 
 	r := vlib.Start(t, "C18", vlib.LevelExploration)
 	defer r.Finish()
-	r.SetRule("case = (local suffrage height or none, remote's last suffrage height, batch limit, remote behaviour) given to the real isaac.SuffrageStateBuilder.Build with SetBatchLimit; the remote serves real suffrage proofs (blocks written by Writer+LocalFSWriter, proofs encoded and decoded, all passing IsValid): honest, delayed/shuffled, a duplicate of another height, a missing height, a height below the local state, a height above the last, proofs of a foreign chain (one / all / only the last), last proof older than local, fetch error, not updated, two chains spliced at a random height inside a batch with scheduled answers (reverse / forward / random / simultaneous arrival, 1-2 ms apart) and proofs whose Prove takes 0/6/10 ms longer, the same schedules on the honest chain, a suffrage-height-0 proof carried by a non-genesis block; cases run in child processes (case id logged before it starts) so that a panic in a job-worker goroutine is attributed to its case; distinct = (kind, local, last, limit, targets, answer); non-trivial = every case (each calls Build)")
+	r.SetRule("case = (local suffrage height or none, remote's last suffrage height, batch limit, remote behaviour) given to the real isaac.SuffrageStateBuilder.Build with SetBatchLimit; the remote serves real suffrage proofs (blocks written by Writer+LocalFSWriter, proofs encoded and decoded, all passing IsValid): honest, delayed/shuffled, a duplicate of another height, a missing height, a height below the local state, a height above the last, proofs of a foreign chain (one / all / only the last), last proof older than local, fetch error, not updated, a last proof that is valid and of a newer block than the local state but whose suffrage height is at or below the local one (another chain; Answer = its suffrage height), forged proofs (a forged suffrage state under the real block map with the real state's path, which does not contain it; or with a wrong previous hash and an own consistent tree) at height 0 and at other heights, followed by a forged chain linked to them, with and without a local state, two chains spliced at a random height inside a batch with scheduled answers (reverse / forward / random / simultaneous arrival, 1-2 ms apart) and proofs whose Prove takes 0/6/10 ms longer, the same schedules on the honest chain, a suffrage-height-0 proof carried by a non-genesis block; cases run in child processes (case id logged before it starts) so that a panic in a job-worker goroutine is attributed to its case; distinct = (kind, local, last, limit, targets, answer); non-trivial = every case (each calls Build)")
 	r.Assume("remote answers always pass SuffrageProof.IsValid(networkID), as the real fetch functions in launch guarantee; a nil proof with found=true is not generated")
-	r.Assume("judged only when Build returns a nil error: no nil entry; after dropping a repeated last element the suffrage heights are local+1, local+2, ... last; every proof Proves against its predecessor's state (the first against the local state); the last is the remote's last proof; no proofs at all is accepted only if the remote's last proof is not above the local state")
+	r.Assume("judged only when Build returns a nil error: no nil entry; after dropping a repeated last element the suffrage heights are local+1, local+2, ... last; every proof passes IsValid and Proves against its predecessor's state (the first against the local state); the last is the remote's last proof; no proofs at all is accepted only if the remote's last proof is not above the local state")
+
+	r.Assume("forged kinds break exactly one binding of ONE proof (its state is not in the path it carries, or its previous hash is wrong); the forged proofs served for the heights after it carry their own consistent trees and correct links, so they Prove (that Prove does not compare the path's root with the manifest is C13's known finding and is not judged here)")
 
 	n := r.N(48, 80)
 
@@ -705,7 +874,7 @@ func TestC18(t *testing.T) {
 		t.Fatalf("build world: %+v", err)
 	}
 
-	r.Count("real_blocks_written", 2*n+2)
+	r.Count("real_blocks_written", 2*n+2+8)
 
 	dir := filepath.Join(r.WorkDir(), "child")
 	if err := os.MkdirAll(dir, 0o755); err != nil {
